@@ -58,7 +58,7 @@ impl Prop for VolumeGain {
         let volume_db = match t.weighted(&[1, 6, 2, 1]) {
             0 => 0.0,
             1 => t.uniform(-60.0, 60.0),
-            2 => *t.pick(&[-60.0, 60.0, 20.0, -20.0, 6.0]),
+            2 => *t.pick(&[-60.0, 60.0, 20.0, -20.0, 6.0, -40.0, 40.0, -6.0]),
             _ => t.uniform(-1e-3, 1e-3),
         };
         Case { base, volume_db, before_reload: t.chance(0.2) }
